@@ -38,6 +38,7 @@ pub fn def() -> CheckDef {
         exec,
         components: "real code: ctr and belt-ctr crates (remaining_blocks, counters) and cipher's StreamCipherCoreWrapper (check_remaining, try_seek); stub: block cipher in most runs, real ciphers in the rest; the twin for 'following bytes unchanged' is a clone of the real object taken before the failing call",
         assumptions: &["StreamCipherCore::{write,apply}_keystream_block* are documented as not checking the limit and are used for placement only", "sampling of scenarios; within each, the limit is crossed deliberately"],
+        nondet_is_violation: false,
     }
 }
 
